@@ -215,7 +215,7 @@ func runC09(r *ev.Run) {
 	r.Evals.Store(positions.Load())
 	r.Nontrivial.Store(inCheck.Load() + stalemates.Load())
 	r.Set("distinct_outcomes", map[string]int64{"in_check": inCheck.Load(), "checkmates": mates.Load(), "stalemates": stalemates.Load(), "positions_with_ep_target": epPositions.Load()})
-	r.Set("rule", "every valid position of the listed material classes with engine-normalised en-passant state (target kept only if a legal capture exists), constrained 5-man classes (thorough), and every node of the trees below the root corpus; IsCheckmate is called only in check, IsStalemate only out of check; oracle: answer == (reference has no legal move); non-trivial = positions in check + stalemates")
+	r.Set("rule", "every valid position of the listed material classes with engine-normalised en-passant state (target kept only if a legal capture exists), 4- and 5-man classes with the defending king confined to the corner region (both colours), the constructed families (check-evasion cages with batteries, corner interposition with pinned interposers, stalemate cage with a pawn beside a just-pushed pawn, paralysis of one man beside an immobile king, en-passant bearing pawn classes), and every node of the trees below the root corpus; IsCheckmate is called only in check, IsStalemate only out of check; oracle: answer == (reference has no legal move); non-trivial = positions in check + stalemates")
 }
 
 // c09EvasionFamily enumerates, for each cage, the checker on every square of the open line, an own pawn on
